@@ -34,7 +34,6 @@ from fractions import Fraction
 
 import numpy as np
 
-from harness import tlc
 from harness.util import Hang, fx, time_limit
 
 F30 = "F30"
@@ -184,8 +183,7 @@ def pops_projection(pops, proj):
     return out
 
 
-def build_sample(spec, table, wsh, dtype, cls_kwargs=None):
-    from elfi.methods.results import Sample
+def build_sample(spec, table, wsh, dtype):
     outputs = OrderedDict()
     for k, ids in zip(spec["okeys"], spec["ovals"]):
         if dtype == "int":
